@@ -1,8 +1,1320 @@
-//! C15 — not implemented yet.
+//! C15 — dates, date-times and durations follow the calendar and the UTC time line.
+//!
+//! Implementation: the FEEL evaluator over temporal values (`date(y,m,d)`, `.weekday`, `<`,
+//! `=`, `in (< …)`, `-`, `years and months duration`, property access, duration arithmetic),
+//! driven through FEEL text. Model: `Dmn.Temporal` (mirrors the code); specification:
+//! `Dmn.Cal` (independent calendar), both through the driver.
 
-use crate::report::Report;
+use crate::c14::{feel, feel_list};
+use crate::model::Model;
+use crate::report::{Kind, Report};
+use crate::rng::Rng;
+use crate::sexp::Sexp;
 use crate::Cfg;
+use serde_json::json;
 
-pub fn run(_cfg: &Cfg) -> Report {
-  Report::new("C15", "not implemented")
+/// (zone, y, m, d, h, mi, s, offset seconds) computed with CPython zoneinfo from the system tzdata
+/// (independent of chrono-tz) when this check was written; unambiguous local times only.
+pub const ZONE_TABLE: [(&str, i32, u8, u8, u8, u8, u8, i32); 240] = [
+  ("Europe/Warsaw", 2014, 5, 24, 16, 50, 44, 7200),
+  ("Europe/Warsaw", 2022, 11, 17, 5, 53, 29, 3600),
+  ("Europe/Warsaw", 1990, 11, 2, 10, 7, 23, 3600),
+  ("Europe/Warsaw", 2005, 4, 13, 22, 6, 36, 7200),
+  ("Europe/Warsaw", 1990, 1, 24, 11, 26, 17, 3600),
+  ("Europe/Warsaw", 1986, 7, 6, 7, 8, 39, 7200),
+  ("Europe/Warsaw", 2014, 8, 5, 9, 0, 55, 7200),
+  ("Europe/Warsaw", 1975, 4, 25, 11, 10, 55, 3600),
+  ("Europe/Warsaw", 1985, 5, 11, 11, 34, 56, 7200),
+  ("Europe/Warsaw", 2018, 11, 7, 10, 44, 12, 3600),
+  ("Europe/Warsaw", 1999, 5, 1, 16, 26, 10, 7200),
+  ("Europe/Warsaw", 1984, 5, 3, 15, 19, 52, 7200),
+  ("Europe/London", 2013, 10, 1, 15, 4, 19, 3600),
+  ("Europe/London", 1997, 5, 16, 15, 11, 30, 3600),
+  ("Europe/London", 2005, 12, 6, 6, 16, 1, 0),
+  ("Europe/London", 2022, 6, 28, 17, 1, 35, 3600),
+  ("Europe/London", 2001, 6, 13, 23, 53, 0, 3600),
+  ("Europe/London", 2003, 1, 23, 10, 39, 12, 0),
+  ("Europe/London", 1982, 4, 27, 19, 22, 32, 3600),
+  ("Europe/London", 1997, 9, 9, 19, 6, 37, 3600),
+  ("Europe/London", 2022, 6, 28, 14, 2, 27, 3600),
+  ("Europe/London", 1980, 4, 11, 21, 39, 23, 3600),
+  ("Europe/London", 1984, 6, 9, 22, 5, 19, 3600),
+  ("Europe/London", 2018, 6, 10, 10, 51, 5, 3600),
+  ("America/New_York", 2015, 3, 24, 14, 30, 10, -14400),
+  ("America/New_York", 2021, 1, 3, 22, 59, 25, -18000),
+  ("America/New_York", 1977, 4, 24, 16, 52, 16, -14400),
+  ("America/New_York", 2004, 11, 14, 9, 3, 58, -18000),
+  ("America/New_York", 2015, 1, 26, 20, 21, 53, -18000),
+  ("America/New_York", 1988, 3, 24, 23, 8, 40, -18000),
+  ("America/New_York", 2001, 2, 6, 18, 23, 9, -18000),
+  ("America/New_York", 1978, 7, 10, 9, 29, 59, -14400),
+  ("America/New_York", 2014, 3, 17, 19, 31, 44, -14400),
+  ("America/New_York", 2021, 6, 16, 13, 18, 30, -14400),
+  ("America/New_York", 2000, 3, 4, 17, 52, 34, -18000),
+  ("America/New_York", 1986, 11, 16, 15, 11, 5, -18000),
+  ("America/Vancouver", 2006, 5, 17, 22, 55, 32, -25200),
+  ("America/Vancouver", 1998, 2, 26, 16, 44, 37, -28800),
+  ("America/Vancouver", 2017, 1, 25, 14, 23, 35, -28800),
+  ("America/Vancouver", 2020, 11, 9, 20, 16, 49, -28800),
+  ("America/Vancouver", 2019, 12, 10, 15, 41, 11, -28800),
+  ("America/Vancouver", 2012, 1, 16, 22, 49, 16, -28800),
+  ("America/Vancouver", 1995, 11, 9, 19, 18, 52, -28800),
+  ("America/Vancouver", 2007, 11, 22, 16, 22, 17, -28800),
+  ("America/Vancouver", 2016, 6, 24, 18, 22, 59, -25200),
+  ("America/Vancouver", 1986, 12, 15, 16, 21, 33, -28800),
+  ("America/Vancouver", 1984, 9, 6, 11, 53, 23, -25200),
+  ("America/Vancouver", 2005, 5, 23, 7, 46, 42, -25200),
+  ("Asia/Kolkata", 2021, 7, 6, 23, 33, 42, 19800),
+  ("Asia/Kolkata", 2001, 5, 20, 22, 49, 55, 19800),
+  ("Asia/Kolkata", 2015, 5, 24, 5, 12, 10, 19800),
+  ("Asia/Kolkata", 2012, 8, 20, 10, 14, 48, 19800),
+  ("Asia/Kolkata", 2018, 3, 21, 6, 30, 14, 19800),
+  ("Asia/Kolkata", 1985, 1, 5, 8, 20, 11, 19800),
+  ("Asia/Kolkata", 2005, 4, 18, 6, 26, 29, 19800),
+  ("Asia/Kolkata", 1997, 7, 22, 7, 37, 13, 19800),
+  ("Asia/Kolkata", 1990, 12, 12, 5, 22, 25, 19800),
+  ("Asia/Kolkata", 1992, 7, 28, 8, 44, 53, 19800),
+  ("Asia/Kolkata", 2010, 6, 2, 22, 39, 19, 19800),
+  ("Asia/Kolkata", 1981, 5, 18, 21, 21, 37, 19800),
+  ("Asia/Tokyo", 1993, 6, 27, 9, 26, 26, 32400),
+  ("Asia/Tokyo", 2011, 11, 18, 16, 29, 9, 32400),
+  ("Asia/Tokyo", 1985, 10, 13, 23, 30, 12, 32400),
+  ("Asia/Tokyo", 1983, 10, 3, 16, 52, 57, 32400),
+  ("Asia/Tokyo", 2017, 1, 13, 8, 20, 36, 32400),
+  ("Asia/Tokyo", 2014, 9, 5, 15, 40, 56, 32400),
+  ("Asia/Tokyo", 2011, 7, 14, 18, 14, 31, 32400),
+  ("Asia/Tokyo", 1993, 8, 23, 17, 24, 54, 32400),
+  ("Asia/Tokyo", 1985, 10, 20, 13, 47, 19, 32400),
+  ("Asia/Tokyo", 2006, 5, 14, 5, 20, 19, 32400),
+  ("Asia/Tokyo", 2006, 5, 5, 20, 1, 7, 32400),
+  ("Asia/Tokyo", 2017, 10, 15, 12, 18, 2, 32400),
+  ("Australia/Sydney", 1983, 7, 1, 20, 34, 35, 36000),
+  ("Australia/Sydney", 1992, 4, 16, 6, 15, 31, 36000),
+  ("Australia/Sydney", 1992, 3, 24, 14, 18, 31, 36000),
+  ("Australia/Sydney", 2013, 8, 17, 8, 1, 48, 36000),
+  ("Australia/Sydney", 1983, 5, 10, 22, 45, 21, 36000),
+  ("Australia/Sydney", 2014, 5, 24, 21, 1, 29, 36000),
+  ("Australia/Sydney", 1997, 6, 22, 23, 8, 2, 36000),
+  ("Australia/Sydney", 1975, 5, 18, 19, 43, 58, 36000),
+  ("Australia/Sydney", 1981, 11, 18, 11, 0, 27, 39600),
+  ("Australia/Sydney", 2002, 10, 19, 20, 54, 58, 36000),
+  ("Australia/Sydney", 1999, 8, 13, 11, 57, 18, 36000),
+  ("Australia/Sydney", 2004, 2, 10, 5, 44, 49, 39600),
+  ("Pacific/Honolulu", 2002, 10, 10, 20, 58, 19, -36000),
+  ("Pacific/Honolulu", 1984, 3, 16, 22, 56, 31, -36000),
+  ("Pacific/Honolulu", 1996, 9, 5, 18, 37, 34, -36000),
+  ("Pacific/Honolulu", 1978, 2, 24, 12, 17, 52, -36000),
+  ("Pacific/Honolulu", 1980, 2, 22, 5, 21, 46, -36000),
+  ("Pacific/Honolulu", 2002, 2, 13, 20, 3, 7, -36000),
+  ("Pacific/Honolulu", 1982, 4, 20, 8, 45, 57, -36000),
+  ("Pacific/Honolulu", 1983, 5, 23, 19, 9, 11, -36000),
+  ("Pacific/Honolulu", 2014, 3, 14, 10, 4, 39, -36000),
+  ("Pacific/Honolulu", 1988, 1, 18, 8, 42, 24, -36000),
+  ("Pacific/Honolulu", 2022, 2, 9, 6, 36, 36, -36000),
+  ("Pacific/Honolulu", 1982, 12, 13, 9, 0, 27, -36000),
+  ("Africa/Johannesburg", 1980, 6, 22, 20, 31, 22, 7200),
+  ("Africa/Johannesburg", 2016, 6, 2, 9, 44, 18, 7200),
+  ("Africa/Johannesburg", 1984, 10, 21, 21, 18, 58, 7200),
+  ("Africa/Johannesburg", 2010, 9, 20, 12, 16, 4, 7200),
+  ("Africa/Johannesburg", 2010, 4, 9, 14, 33, 8, 7200),
+  ("Africa/Johannesburg", 1990, 6, 15, 17, 11, 8, 7200),
+  ("Africa/Johannesburg", 2020, 1, 21, 15, 5, 36, 7200),
+  ("Africa/Johannesburg", 2017, 1, 3, 8, 32, 38, 7200),
+  ("Africa/Johannesburg", 2004, 4, 13, 19, 30, 20, 7200),
+  ("Africa/Johannesburg", 1981, 9, 1, 22, 46, 24, 7200),
+  ("Africa/Johannesburg", 1978, 3, 14, 12, 47, 7, 7200),
+  ("Africa/Johannesburg", 1980, 11, 16, 11, 8, 44, 7200),
+  ("America/Sao_Paulo", 2014, 7, 12, 12, 18, 21, -10800),
+  ("America/Sao_Paulo", 2014, 12, 12, 17, 24, 8, -7200),
+  ("America/Sao_Paulo", 2021, 6, 21, 14, 51, 40, -10800),
+  ("America/Sao_Paulo", 2002, 6, 17, 6, 37, 36, -10800),
+  ("America/Sao_Paulo", 1988, 12, 6, 17, 4, 6, -7200),
+  ("America/Sao_Paulo", 1977, 1, 6, 11, 12, 2, -10800),
+  ("America/Sao_Paulo", 2006, 8, 22, 16, 0, 27, -10800),
+  ("America/Sao_Paulo", 2005, 5, 20, 18, 20, 29, -10800),
+  ("America/Sao_Paulo", 2004, 2, 7, 9, 41, 10, -7200),
+  ("America/Sao_Paulo", 1979, 6, 28, 17, 55, 56, -10800),
+  ("America/Sao_Paulo", 2005, 3, 18, 13, 7, 17, -10800),
+  ("America/Sao_Paulo", 1985, 5, 22, 12, 2, 30, -10800),
+  ("Asia/Kathmandu", 1977, 6, 25, 16, 20, 3, 19800),
+  ("Asia/Kathmandu", 2019, 1, 22, 19, 30, 54, 20700),
+  ("Asia/Kathmandu", 1984, 2, 26, 15, 18, 29, 19800),
+  ("Asia/Kathmandu", 2018, 4, 24, 10, 2, 12, 20700),
+  ("Asia/Kathmandu", 2020, 1, 19, 12, 42, 5, 20700),
+  ("Asia/Kathmandu", 2014, 7, 23, 16, 43, 19, 20700),
+  ("Asia/Kathmandu", 1986, 8, 12, 14, 4, 46, 20700),
+  ("Asia/Kathmandu", 2020, 8, 6, 12, 11, 43, 20700),
+  ("Asia/Kathmandu", 1988, 1, 21, 18, 46, 17, 20700),
+  ("Asia/Kathmandu", 1975, 8, 2, 19, 49, 43, 19800),
+  ("Asia/Kathmandu", 2001, 3, 2, 6, 35, 53, 20700),
+  ("Asia/Kathmandu", 2008, 10, 12, 8, 45, 4, 20700),
+  ("Europe/Moscow", 1990, 8, 3, 20, 3, 43, 14400),
+  ("Europe/Moscow", 1990, 11, 2, 20, 25, 50, 10800),
+  ("Europe/Moscow", 1978, 1, 9, 18, 28, 19, 10800),
+  ("Europe/Moscow", 2015, 1, 2, 11, 11, 44, 10800),
+  ("Europe/Moscow", 2007, 11, 13, 11, 34, 14, 10800),
+  ("Europe/Moscow", 1980, 6, 26, 8, 5, 34, 10800),
+  ("Europe/Moscow", 1985, 10, 3, 11, 39, 1, 10800),
+  ("Europe/Moscow", 2003, 9, 12, 20, 27, 36, 14400),
+  ("Europe/Moscow", 1999, 9, 21, 9, 46, 0, 14400),
+  ("Europe/Moscow", 1994, 12, 15, 12, 35, 7, 10800),
+  ("Europe/Moscow", 1983, 5, 16, 7, 49, 49, 14400),
+  ("Europe/Moscow", 1991, 7, 11, 9, 8, 34, 10800),
+  ("Pacific/Auckland", 1980, 8, 8, 7, 51, 27, 43200),
+  ("Pacific/Auckland", 2011, 11, 8, 13, 3, 31, 46800),
+  ("Pacific/Auckland", 2019, 4, 2, 11, 50, 18, 46800),
+  ("Pacific/Auckland", 1998, 2, 3, 18, 49, 20, 46800),
+  ("Pacific/Auckland", 1999, 9, 1, 14, 41, 48, 43200),
+  ("Pacific/Auckland", 1983, 10, 1, 19, 9, 52, 43200),
+  ("Pacific/Auckland", 2019, 11, 26, 5, 46, 3, 46800),
+  ("Pacific/Auckland", 2019, 7, 9, 8, 51, 51, 43200),
+  ("Pacific/Auckland", 1999, 9, 5, 15, 4, 19, 43200),
+  ("Pacific/Auckland", 1985, 3, 9, 20, 43, 20, 43200),
+  ("Pacific/Auckland", 1993, 1, 3, 22, 48, 47, 46800),
+  ("Pacific/Auckland", 2010, 1, 1, 8, 3, 8, 46800),
+  ("America/St_Johns", 1997, 7, 28, 13, 39, 1, -9000),
+  ("America/St_Johns", 1989, 9, 14, 9, 23, 12, -9000),
+  ("America/St_Johns", 1996, 6, 1, 10, 37, 39, -9000),
+  ("America/St_Johns", 1985, 12, 4, 13, 33, 38, -12600),
+  ("America/St_Johns", 1985, 11, 23, 9, 28, 48, -12600),
+  ("America/St_Johns", 2002, 7, 4, 15, 20, 28, -9000),
+  ("America/St_Johns", 1989, 8, 20, 18, 10, 28, -9000),
+  ("America/St_Johns", 1978, 11, 6, 22, 30, 31, -12600),
+  ("America/St_Johns", 2013, 1, 4, 9, 52, 54, -12600),
+  ("America/St_Johns", 2001, 11, 2, 11, 0, 2, -12600),
+  ("America/St_Johns", 2011, 4, 16, 16, 25, 29, -9000),
+  ("America/St_Johns", 1988, 4, 9, 11, 19, 35, -5400),
+  ("Etc/UTC", 2008, 6, 25, 12, 23, 22, 0),
+  ("Etc/UTC", 1990, 11, 27, 6, 39, 31, 0),
+  ("Etc/UTC", 2000, 6, 5, 9, 53, 15, 0),
+  ("Etc/UTC", 2006, 7, 2, 8, 10, 25, 0),
+  ("Etc/UTC", 1981, 12, 10, 11, 50, 51, 0),
+  ("Etc/UTC", 1995, 8, 22, 20, 55, 34, 0),
+  ("Etc/UTC", 2014, 2, 26, 11, 24, 44, 0),
+  ("Etc/UTC", 1975, 2, 17, 23, 39, 11, 0),
+  ("Etc/UTC", 1999, 1, 11, 5, 39, 19, 0),
+  ("Etc/UTC", 2007, 7, 17, 20, 34, 45, 0),
+  ("Etc/UTC", 2019, 7, 15, 23, 59, 59, 0),
+  ("Etc/UTC", 2019, 9, 22, 6, 34, 9, 0),
+  ("Asia/Tehran", 2001, 6, 19, 5, 43, 49, 16200),
+  ("Asia/Tehran", 2008, 4, 10, 14, 4, 1, 16200),
+  ("Asia/Tehran", 1980, 6, 20, 23, 55, 48, 16200),
+  ("Asia/Tehran", 2020, 7, 10, 5, 17, 59, 16200),
+  ("Asia/Tehran", 2020, 4, 3, 6, 48, 5, 16200),
+  ("Asia/Tehran", 2017, 5, 12, 22, 13, 30, 16200),
+  ("Asia/Tehran", 2008, 2, 4, 12, 21, 50, 12600),
+  ("Asia/Tehran", 2009, 7, 13, 5, 42, 24, 16200),
+  ("Asia/Tehran", 1999, 3, 25, 21, 57, 13, 16200),
+  ("Asia/Tehran", 2018, 10, 11, 17, 20, 6, 12600),
+  ("Asia/Tehran", 2019, 9, 23, 16, 15, 56, 12600),
+  ("Asia/Tehran", 1981, 4, 10, 14, 51, 17, 12600),
+  ("Australia/Lord_Howe", 2014, 2, 6, 7, 40, 26, 39600),
+  ("Australia/Lord_Howe", 1986, 4, 21, 7, 36, 36, 37800),
+  ("Australia/Lord_Howe", 2015, 11, 18, 18, 26, 14, 39600),
+  ("Australia/Lord_Howe", 2002, 8, 17, 12, 19, 26, 37800),
+  ("Australia/Lord_Howe", 1992, 2, 20, 15, 11, 26, 39600),
+  ("Australia/Lord_Howe", 1976, 3, 4, 14, 36, 35, 36000),
+  ("Australia/Lord_Howe", 2013, 10, 6, 18, 12, 20, 39600),
+  ("Australia/Lord_Howe", 2013, 2, 21, 15, 46, 4, 39600),
+  ("Australia/Lord_Howe", 1978, 8, 5, 21, 4, 20, 36000),
+  ("Australia/Lord_Howe", 1987, 8, 21, 17, 59, 57, 37800),
+  ("Australia/Lord_Howe", 1989, 12, 20, 20, 53, 6, 39600),
+  ("Australia/Lord_Howe", 1975, 4, 22, 10, 7, 5, 36000),
+  ("Pacific/Chatham", 1996, 3, 12, 8, 36, 48, 49500),
+  ("Pacific/Chatham", 2003, 12, 11, 10, 45, 57, 49500),
+  ("Pacific/Chatham", 2010, 10, 21, 8, 23, 6, 49500),
+  ("Pacific/Chatham", 1979, 4, 7, 15, 23, 11, 45900),
+  ("Pacific/Chatham", 2004, 11, 24, 7, 15, 25, 49500),
+  ("Pacific/Chatham", 2009, 8, 13, 5, 7, 38, 45900),
+  ("Pacific/Chatham", 1998, 3, 22, 5, 31, 24, 45900),
+  ("Pacific/Chatham", 1996, 12, 3, 20, 48, 46, 49500),
+  ("Pacific/Chatham", 2020, 5, 1, 8, 51, 30, 45900),
+  ("Pacific/Chatham", 1997, 12, 7, 15, 24, 9, 49500),
+  ("Pacific/Chatham", 1993, 8, 21, 7, 36, 7, 45900),
+  ("Pacific/Chatham", 1993, 7, 11, 7, 33, 27, 45900),
+  ("America/Caracas", 1978, 4, 14, 12, 17, 42, -14400),
+  ("America/Caracas", 2021, 2, 5, 13, 6, 35, -14400),
+  ("America/Caracas", 2005, 7, 6, 22, 54, 24, -14400),
+  ("America/Caracas", 1990, 2, 15, 16, 8, 51, -14400),
+  ("America/Caracas", 1980, 1, 27, 9, 23, 51, -14400),
+  ("America/Caracas", 1976, 1, 9, 22, 29, 24, -14400),
+  ("America/Caracas", 2008, 2, 2, 11, 12, 51, -16200),
+  ("America/Caracas", 2003, 1, 16, 21, 5, 17, -14400),
+  ("America/Caracas", 2013, 11, 16, 21, 1, 3, -16200),
+  ("America/Caracas", 1985, 7, 25, 21, 27, 55, -14400),
+  ("America/Caracas", 2012, 11, 21, 23, 2, 13, -16200),
+  ("America/Caracas", 1976, 7, 25, 18, 51, 55, -14400),
+  ("Europe/Lisbon", 2002, 7, 1, 10, 57, 21, 3600),
+  ("Europe/Lisbon", 1984, 5, 25, 11, 27, 53, 3600),
+  ("Europe/Lisbon", 1979, 6, 7, 17, 26, 12, 3600),
+  ("Europe/Lisbon", 1992, 3, 16, 16, 18, 0, 0),
+  ("Europe/Lisbon", 2017, 11, 4, 10, 48, 29, 0),
+  ("Europe/Lisbon", 1979, 2, 22, 17, 2, 57, 0),
+  ("Europe/Lisbon", 2001, 3, 7, 5, 47, 53, 0),
+  ("Europe/Lisbon", 2006, 6, 20, 19, 8, 29, 3600),
+  ("Europe/Lisbon", 1990, 2, 12, 5, 0, 11, 0),
+  ("Europe/Lisbon", 2002, 2, 9, 9, 48, 41, 0),
+  ("Europe/Lisbon", 1998, 6, 25, 11, 9, 18, 3600),
+  ("Europe/Lisbon", 2008, 12, 18, 7, 18, 7, 0),
+];
+
+
+fn is_leap(y: i64) -> bool {
+  y.rem_euclid(4) == 0 && (y.rem_euclid(100) != 0 || y.rem_euclid(400) == 0)
+}
+
+fn dim(y: i64, m: i64) -> i64 {
+  match m {
+    1 | 3 | 5 | 7 | 8 | 10 | 12 => 31,
+    4 | 6 | 9 | 11 => 30,
+    2 => {
+      if is_leap(y) {
+        29
+      } else {
+        28
+      }
+    }
+    _ => 0,
+  }
+}
+
+fn num(n: i64) -> String {
+  // FEEL has no negative literals: `-5` is the negation of `5`
+  format!("{}", n)
+}
+
+fn date_expr(y: i64, m: i64, d: i64) -> String {
+  format!("date({},{},{})", num(y), num(m), num(d))
+}
+
+#[derive(Clone, Debug, PartialEq)]
+enum Zone {
+  Utc,
+  Local,
+  Offset(i64),
+  Named(String),
+}
+
+#[derive(Clone, Debug)]
+struct Dt {
+  y: i64,
+  m: i64,
+  d: i64,
+  h: i64,
+  mi: i64,
+  s: i64,
+  ns: i64,
+  z: Zone,
+}
+
+impl Zone {
+  fn text(&self) -> String {
+    match self {
+      Zone::Utc => "Z".into(),
+      Zone::Local => "".into(),
+      Zone::Offset(o) => {
+        let a = o.abs();
+        let sign = if *o < 0 { '-' } else { '+' };
+        if a % 60 != 0 {
+          format!("{}{:02}:{:02}:{:02}", sign, a / 3600, a % 3600 / 60, a % 60)
+        } else {
+          format!("{}{:02}:{:02}", sign, a / 3600, a % 3600 / 60)
+        }
+      }
+      Zone::Named(n) => format!("@{}", n),
+    }
+  }
+  fn sexp(&self) -> String {
+    match self {
+      Zone::Utc => "utc".into(),
+      Zone::Local => "local".into(),
+      Zone::Offset(o) => format!("(offset {})", o),
+      Zone::Named(n) => format!("(zone {})", Sexp::str(n)),
+    }
+  }
+}
+
+impl Dt {
+  fn time_text(&self) -> String {
+    let frac = if self.ns > 0 {
+      let s = format!("{:09}", self.ns);
+      format!(".{}", s.trim_end_matches('0'))
+    } else {
+      String::new()
+    };
+    format!("{:02}:{:02}:{:02}{}{}", self.h, self.mi, self.s, frac, self.z.text())
+  }
+  /// Built from a date made of numbers (any year) and a time literal.
+  fn expr(&self) -> String {
+    format!("date and time({}, time(\"{}\"))", date_expr(self.y, self.m, self.d), self.time_text())
+  }
+  fn fields(&self) -> String {
+    format!("{} {} {} {} {} {} {} {}", self.y, self.m, self.d, self.h, self.mi, self.s, self.ns, self.z.sexp())
+  }
+  fn obs(&self) -> String {
+    format!("(dt {})", self.fields())
+  }
+}
+
+fn classify_year(y: i64) -> &'static str {
+  if y.abs() > 262_143 {
+    "year:beyond-chrono"
+  } else if y < 0 {
+    "year:negative"
+  } else if y < 1000 {
+    "year:0..999"
+  } else if y <= 2400 {
+    "year:1000..2400"
+  } else {
+    "year:2401..262142"
+  }
+}
+
+/// Decimal `c · 10^e` as FEEL text.
+pub fn dec_text(c: i128, e: i32) -> String {
+  let neg = c < 0;
+  let digits = c.abs().to_string();
+  let body = if e >= 0 {
+    format!("{}{}", digits, "0".repeat(e as usize))
+  } else {
+    let k = (-e) as usize;
+    if digits.len() > k {
+      format!("{}.{}", &digits[..digits.len() - k], &digits[digits.len() - k..])
+    } else {
+      format!("0.{}{}", "0".repeat(k - digits.len()), digits)
+    }
+  };
+  if neg {
+    format!("-{}", body)
+  } else {
+    body
+  }
+}
+
+fn parse_pair(ans: &str) -> Option<(Sexp, Sexp)> {
+  match Sexp::parse(ans)?.as_list()? {
+    [a, b] => Some((a.clone(), b.clone())),
+    _ => None,
+  }
+}
+
+fn field(s: &Sexp, tag: &str) -> Option<String> {
+  for p in s.as_list()? {
+    if let Some(l) = p.as_list() {
+      if l.first().and_then(|x| x.as_atom()) == Some(tag) {
+        return Some(l[1..].iter().map(|x| x.to_string()).collect::<Vec<_>>().join(" "));
+      }
+    }
+  }
+  None
+}
+
+fn norm_panic(s: &str) -> String {
+  if s.starts_with("(panic") {
+    "panic".to_string()
+  } else {
+    s.to_string()
+  }
+}
+
+struct Ctx<'a> {
+  rep: &'a mut Report,
+  model: &'a mut Model,
+}
+
+// ---------------------------------------------------------------------------------------------
+// family 1: validity, weekday, day number (dates from numbers, any year)
+
+fn run_dates(cx: &mut Ctx, dates: &[(i64, i64, i64)]) {
+  let reqs: Vec<String> = dates.iter().map(|(y, m, d)| format!("(c15 date {} {} {})", y, m, d)).collect();
+  let answers = cx.model.ask_batch(&reqs);
+  for (((y, m, d), req), ans) in dates.iter().zip(reqs.iter()).zip(answers.iter()) {
+    let (y, m, d) = (*y, *m, *d);
+    let e = date_expr(y, m, d);
+    let obs = feel_list(&format!("{{x: {}, r: [x, x.weekday, x.year, x.month, x.day]}}.r", e));
+    let valid_impl = obs.first().map(|s| s.starts_with("(date")).unwrap_or(false);
+    let weekday_impl = match obs.get(1).map(|s| s.as_str()) {
+      Some(s) if s.starts_with("(n ") => s[3..s.len() - 1].to_string(),
+      _ => "none".to_string(),
+    };
+    // the literal route (`is_valid_date` alone), where the literal grammar can write the date
+    let lit_obs = if (1000..=999_999_999).contains(&y.abs()) && (0..100).contains(&m) && (0..100).contains(&d) {
+      let t = format!("date(\"{}{}-{:02}-{:02}\")", if y < 0 { "-" } else { "" }, y.abs(), m, d);
+      Some((feel(&t).starts_with("(date"), t))
+    } else {
+      None
+    };
+    let nontrivial = m >= 1 && m <= 12 && d >= 28 || d == 1 || d == 0;
+    cx.rep.case(req, nontrivial);
+    cx.rep.hit(classify_year(y));
+    cx.rep.hit(if valid_impl { "date:accepted" } else { "date:rejected" });
+    let (mo, sp) = match parse_pair(ans) {
+      Some(p) => p,
+      None => {
+        cx.rep.disagree(Kind::ImplVsModel, "date", "driver-error", req, &obs.join(" "), ans);
+        continue;
+      }
+    };
+    let m_valid = field(&mo, "valid").unwrap_or_default() == "true";
+    let m_weekday = field(&mo, "weekday").unwrap_or_default();
+    let s_valid = field(&sp, "valid").unwrap_or_default() == "true";
+    let s_weekday = field(&sp, "weekday").unwrap_or_default();
+    let s_back = field(&sp, "back").unwrap_or_default();
+    if valid_impl != m_valid {
+      cx.rep.disagree(Kind::ImplVsModel, "valid_iff", "date validity differs from the model", &e, &valid_impl.to_string(), &m_valid.to_string());
+    }
+    if let Some((lv, t)) = &lit_obs {
+      let m_lit = field(&mo, "lit").unwrap_or_default() == "true";
+      if *lv != m_lit {
+        cx.rep.disagree(Kind::ImplVsModel, "valid_iff", "date literal validity differs from the model", t, &lv.to_string(), &m_lit.to_string());
+      }
+      if *lv != s_valid {
+        let sig = if d == 0 && *lv { "C15 date validity: day 0 is accepted" } else { "C15 date validity differs from the calendar" };
+        cx.rep.disagree(Kind::ImplVsSpec, "valid_iff", sig, t, &lv.to_string(), &s_valid.to_string());
+      }
+    }
+    if valid_impl && weekday_impl != m_weekday {
+      cx.rep.disagree(Kind::ImplVsModel, "weekday_eq", "weekday differs from the model", &e, &weekday_impl, &m_weekday);
+    }
+    // the property itself: validity and weekday as the calendar says
+    if valid_impl != s_valid {
+      let sig = if d == 0 && valid_impl { "C15 date validity: day 0 is accepted" } else { "C15 date validity differs from the calendar" };
+      cx.rep.disagree(Kind::ImplVsSpec, "valid_iff", sig, &e, &valid_impl.to_string(), &s_valid.to_string());
+    }
+    if valid_impl && s_valid {
+      if weekday_impl != s_weekday {
+        let sig = if y.abs() > 262_142 { "C15 weekday of a date beyond chrono's year range is null" } else { "C15 weekday differs from the calendar" };
+        cx.rep.disagree(Kind::ImplVsSpec, "weekday_eq", sig, &format!("{}.weekday", e), &weekday_impl, &s_weekday);
+      }
+      // the calendar's own round trip, on the running driver
+      if s_back != format!("{} {} {}", y, m, d) {
+        cx.rep.disagree(Kind::ImplVsModel, "civil_roundtrip", "driver: civilFromDays(daysFromCivil) differs", req, &s_back, "");
+      }
+      // property access on dates
+      let props = format!("{} {} {}", obs.get(2).cloned().unwrap_or_default(), obs.get(3).cloned().unwrap_or_default(), obs.get(4).cloned().unwrap_or_default());
+      let want = format!("(n {}) (n {}) (n {})", y, m, d);
+      if props != want {
+        cx.rep.disagree(Kind::ImplVsSpec, "property_access", "C15 year/month/day of a date differ from its components", &e, &props, &want);
+      }
+    }
+    if nontrivial && valid_impl && cx.rep.samples.len() < 3 {
+      cx.rep.sample(json!({"expression": e, "implementation": obs, "model_and_spec": ans}));
+    }
+  }
+}
+
+// ---------------------------------------------------------------------------------------------
+// family 2: date(y, m, d) with narrowing conversions
+
+fn run_fromnum(cx: &mut Ctx, rng: &mut Rng, n: usize) {
+  let mut cases: Vec<[(i128, i32); 3]> = vec![];
+  // corpus: the pre-observed ones
+  cases.push([(2021, 0), (15, -1), (5, -1)]);
+  cases.push([(2021, 0), (257, 0), (1, 0)]);
+  cases.push([(2021, 0), (1, 0), (257, 0)]);
+  cases.push([(3_000_000_000, 0), (1, 0), (1, 0)]);
+  cases.push([(2021, 0), (2, 0), (29, 0)]);
+  cases.push([(2020, 0), (2, 0), (29, 0)]);
+  cases.push([(2021, 0), (0, 0), (1, 0)]);
+  cases.push([(2021, 0), (-1, 0), (1, 0)]);
+  cases.push([(2021, 0), (13, 0), (1, 0)]);
+  cases.push([(2021, 0), (4, 0), (31, 0)]);
+  cases.push([(20215, -1), (4, 0), (3, 0)]);
+  cases.push([(1_000_000_000, 0), (1, 0), (1, 0)]);
+  cases.push([(-1_000_000_000, 0), (1, 0), (1, 0)]);
+  cases.push([(999_999_999, 0), (12, 0), (31, 0)]);
+  cases.push([(2021, 0), (4294967297, 0), (1, 0)]);
+  cases.push([(2021, 0), (1, 0), (4294967297, 0)]);
+  cases.push([(2, 3), (1, 0), (1, 0)]);
+  for _ in 0..n {
+    let mut comp = |rng: &mut Rng, kind: usize| -> (i128, i32) {
+      let base: i128 = match kind {
+        0 => match rng.below(8) {
+          0 => rng.range(-3, 3) as i128,
+          1 => rng.range(1900, 2100) as i128,
+          2 => rng.range(-262_200, 262_200) as i128,
+          3 => rng.range(-1_000_000_100, 1_000_000_100) as i128,
+          4 => (rng.range(-3, 3) as i128) + 2_147_483_648,
+          5 => (rng.range(-3, 3) as i128) - 2_147_483_648,
+          6 => rng.range(2_147_483_000, 9_999_999_999) as i128,
+          _ => rng.range(1000, 9999) as i128,
+        },
+        _ => match rng.below(7) {
+          0 => rng.range(-2, 2) as i128,
+          1 | 2 => rng.range(1, if kind == 1 { 13 } else { 32 }) as i128,
+          3 => rng.range(250, 290) as i128,
+          4 => 256 * rng.range(1, 5) as i128 + rng.range(0, 31) as i128,
+          5 => 4_294_967_296i128 + rng.range(-2, 31) as i128,
+          _ => rng.range(1, 31) as i128,
+        },
+      };
+      match rng.below(6) {
+        0 => (base * 10 + 5, -1),               // x.5
+        1 => (base * 100 + rng.range(1, 99) as i128, -2),
+        2 => (base * 10, -1),                   // integral with a fraction digit
+        _ => (base, 0),
+      }
+    };
+    cases.push([comp(rng, 0), comp(rng, 1), comp(rng, 2)]);
+  }
+  let reqs: Vec<String> = cases
+    .iter()
+    .map(|c| format!("(c15 fromnum ({} {}) ({} {}) ({} {}))", c[0].0, c[0].1, c[1].0, c[1].1, c[2].0, c[2].1))
+    .collect();
+  let answers = cx.model.ask_batch(&reqs);
+  for ((c, req), ans) in cases.iter().zip(reqs.iter()).zip(answers.iter()) {
+    let e = format!("date({},{},{})", dec_text(c[0].0, c[0].1), dec_text(c[1].0, c[1].1), dec_text(c[2].0, c[2].1));
+    let obs = norm_panic(&feel(&e));
+    cx.rep.case(req, true);
+    cx.rep.hit(if obs == "null" { "fromnum:null" } else { "fromnum:date" });
+    let (mo, sp) = match parse_pair(ans) {
+      Some(p) => (p.0.to_string(), p.1.to_string()),
+      None => {
+        cx.rep.disagree(Kind::ImplVsModel, "fromnum", "driver-error", req, &obs, ans);
+        continue;
+      }
+    };
+    if obs != mo {
+      cx.rep.disagree(Kind::ImplVsModel, "date_from_numbers", "date(y,m,d) differs from the model", &e, &obs, &mo);
+    }
+    if obs != sp {
+      let integral = |x: &(i128, i32)| x.1 >= 0 || x.0 % 10i128.pow((-x.1) as u32) == 0;
+      let val = |x: &(i128, i32)| if x.1 >= 0 { x.0 * 10i128.pow(x.1 as u32) } else { x.0 / 10i128.pow((-x.1) as u32) };
+      let sig = if !(integral(&c[0]) && integral(&c[1]) && integral(&c[2])) {
+        "C15 date(y,m,d): a fractional component is rounded half-even instead of rejected"
+      } else if val(&c[1]) > 255 || val(&c[2]) > 255 {
+        "C15 date(y,m,d): month or day above 255 is narrowed modulo 256 (as u8)"
+      } else if val(&c[0]) > 2_147_483_647 || val(&c[0]) < -2_147_483_648 {
+        "C15 date(y,m,d): a year outside i32 becomes year 0"
+      } else {
+        "C15 date(y,m,d) differs from the calendar"
+      };
+      cx.rep.disagree(Kind::ImplVsSpec, "date_from_numbers_rejects", sig, &e, &obs, &sp);
+    }
+    if cx.rep.samples.len() < 5 && obs != "null" {
+      cx.rep.sample(json!({"expression": e, "implementation": obs, "model_and_spec": ans}));
+    }
+  }
+}
+
+// ---------------------------------------------------------------------------------------------
+// family 3: order of dates
+
+fn run_dcmp(cx: &mut Ctx, pairs: &[((i64, i64, i64), (i64, i64, i64))]) {
+  let reqs: Vec<String> = pairs.iter().map(|(a, b)| format!("(c15 dcmp {} {} {} {} {} {})", a.0, a.1, a.2, b.0, b.1, b.2)).collect();
+  let answers = cx.model.ask_batch(&reqs);
+  for (((a, b), req), ans) in pairs.iter().zip(reqs.iter()).zip(answers.iter()) {
+    let (ea, eb) = (date_expr(a.0, a.1, a.2), date_expr(b.0, b.1, b.2));
+    let e = format!("{{a: {}, b: {}, r: [a < b, a <= b, a > b, a >= b, a = b, a in (< b), a between a and b, a in [a..b]]}}.r", ea, eb);
+    let obs = feel_list(&e);
+    cx.rep.case(req, a != b);
+    cx.rep.hit(classify_year(a.0));
+    if obs.len() != 8 {
+      // one of the two is not a date for the implementation (day out of range): nothing to compare
+      cx.rep.hit("dcmp:not-a-date");
+      continue;
+    }
+    let parsed = Sexp::parse(ans);
+    let l = match parsed.as_ref().and_then(|s| s.as_list()) {
+      Some([m, s, _]) => (m.to_string(), s.to_string()),
+      _ => {
+        cx.rep.disagree(Kind::ImplVsModel, "dcmp", "driver-error", req, &obs.join(" "), ans);
+        continue;
+      }
+    };
+    let five = format!("({})", obs[..5].join(" "));
+    if five != l.0 {
+      cx.rep.disagree(Kind::ImplVsModel, "date_order_iff", "date comparison differs from the model", &e, &five, &l.0);
+    }
+    if five != l.1 {
+      let sig = if a.0.abs() > 262_142 || b.0.abs() > 262_142 { "C15 date order beyond chrono's year range" } else { "C15 date order differs from the calendar" };
+      cx.rep.disagree(Kind::ImplVsSpec, "date_order_iff", sig, &e, &five, &l.1);
+    }
+    // the other routes to the same order must agree with `<` and `<=`
+    if obs[5] != obs[0] || obs[6] != obs[1] || obs[7] != obs[1] {
+      cx.rep.disagree(Kind::ImplVsSpec, "date_order_iff", "C15 date order: `in (< b)`, `between`, `in [a..b]` disagree with `<`/`<=`", &e, &obs.join(" "), "");
+    }
+  }
+}
+
+// ---------------------------------------------------------------------------------------------
+// family 4: date-times: comparison, subtraction, property access
+
+/// Evaluates the date-time and checks that the value is the intended one (a time literal with a
+/// fraction goes through f64 in the code: C14's concern; such cases are skipped here).
+fn constructed_ok(cx: &mut Ctx, x: &Dt) -> bool {
+  let o = feel(&x.expr());
+  if o == x.obs() {
+    true
+  } else {
+    cx.rep.hit("skipped:construction-differs");
+    if std::env::var("VERIF_DEBUG").is_ok() {
+      eprintln!("construction differs: {} => {} (wanted {})", x.expr(), o, x.obs());
+    }
+    false
+  }
+}
+
+/// The oracle offset of a named zone at this local time, as the implementation reports it
+/// (`.time offset`); `none` for fixed zones.
+fn oracle_of(x: &Dt) -> String {
+  match &x.z {
+    Zone::Named(_) => match norm_panic(&feel(&format!("({}).time offset", x.expr()))).as_str() {
+      s if s.starts_with("(dtd ") => {
+        let n: i128 = s[5..s.len() - 1].parse().unwrap_or(0);
+        format!("{}", n / 1_000_000_000)
+      }
+      _ => "none".to_string(),
+    },
+    _ => "none".to_string(),
+  }
+}
+
+fn run_dt_pairs(cx: &mut Ctx, pairs: &[(Dt, Dt)]) {
+  let mut live: Vec<(&Dt, &Dt, String, String)> = vec![];
+  for (a, b) in pairs {
+    if constructed_ok(cx, a) && constructed_ok(cx, b) {
+      live.push((a, b, oracle_of(a), oracle_of(b)));
+    }
+  }
+  let mut reqs = vec![];
+  for (a, b, oa, ob) in &live {
+    reqs.push(format!("(c15 cmp ({}) {} ({}) {})", a.fields(), oa, b.fields(), ob));
+    reqs.push(format!("(c15 sub ({}) {} ({}) {})", a.fields(), oa, b.fields(), ob));
+  }
+  let answers = cx.model.ask_batch(&reqs);
+  for (i, (a, b, _, _)) in live.iter().enumerate() {
+    let (req_c, req_s) = (&reqs[2 * i], &reqs[2 * i + 1]);
+    let (ans_c, ans_s) = (&answers[2 * i], &answers[2 * i + 1]);
+    let e = format!("{{a: {}, b: {}, r: [a = b, a in (< b), a in (> b), a - b, a < b, a between a and b]}}.r", a.expr(), b.expr());
+    let obs = feel_list(&e);
+    let beyond = a.y.abs() >= 262_142 || b.y.abs() >= 262_142;
+    cx.rep.case(req_c, true);
+    cx.rep.hit(match (&a.z, &b.z) {
+      (Zone::Named(_), _) | (_, Zone::Named(_)) => "dt:named-zone",
+      (Zone::Utc, Zone::Utc) => "dt:utc-utc",
+      _ => "dt:offsets",
+    });
+    let (icmp, isub, ilt_op, ile) = if obs.len() == 6 {
+      let c = match (obs[0].as_str(), obs[1].as_str(), obs[2].as_str()) {
+        ("true", "false", "false") => "eq",
+        ("false", "true", "false") => "lt",
+        ("false", "false", "true") => "gt",
+        ("null", "null", "null") => "none",
+        _ => "inconsistent",
+      };
+      let s = if obs[3].starts_with("(dtd ") { obs[3][5..obs[3].len() - 1].to_string() } else { "none".to_string() };
+      (c.to_string(), s, obs[4].clone(), obs[5].clone())
+    } else {
+      ("panic".to_string(), "panic".to_string(), "panic".into(), "panic".into())
+    };
+    let (mc, sc) = match parse_pair(ans_c) {
+      Some(p) => (p.0.to_string(), p.1.to_string()),
+      None => {
+        cx.rep.disagree(Kind::ImplVsModel, "cmp", "driver-error", req_c, &obs.join(" "), ans_c);
+        continue;
+      }
+    };
+    let (ms, ss) = match parse_pair(ans_s) {
+      Some(p) => (p.0.to_string(), p.1.to_string()),
+      None => {
+        cx.rep.disagree(Kind::ImplVsModel, "sub", "driver-error", req_s, &obs.join(" "), ans_s);
+        continue;
+      }
+    };
+    if icmp != mc {
+      cx.rep.disagree(Kind::ImplVsModel, "datetime_compare_instant", "date-time comparison differs from the model", &e, &icmp, &mc);
+    }
+    if isub != ms {
+      cx.rep.disagree(Kind::ImplVsModel, "datetime_sub_exact", "date-time subtraction differs from the model", &e, &isub, &ms);
+    }
+    if sc != "none" {
+      if icmp != sc {
+        let sig = if icmp == "panic" {
+          "C15 date-time comparison panics"
+        } else if beyond {
+          "C15 date-time comparison beyond chrono's year range is null"
+        } else {
+          "C15 date-time comparison differs from the order of instants"
+        };
+        cx.rep.disagree(Kind::ImplVsSpec, "datetime_compare_instant", sig, &e, &icmp, &sc);
+      }
+      if isub != ss {
+        let big = ss.parse::<i128>().map(|n| n > i64::MAX as i128 || n < i64::MIN as i128).unwrap_or(false);
+        let sig = if isub == "panic" {
+          "C15 date-time subtraction panics"
+        } else if beyond {
+          "C15 date-time subtraction beyond chrono's year range is null"
+        } else if big {
+          "C15 date-time subtraction of more than i64 nanoseconds (about 292 years) is null"
+        } else {
+          "C15 date-time subtraction differs from the difference of instants"
+        };
+        cx.rep.disagree(Kind::ImplVsSpec, "datetime_sub_exact", sig, &e, &isub, &ss);
+      }
+      // the operator `<` and `between` on date-times
+      let want_lt = if sc == "lt" { "true" } else { "false" };
+      if ilt_op != want_lt && !beyond && icmp != "panic" {
+        cx.rep.disagree(Kind::ImplVsSpec, "datetime_compare_instant", "C15 operator < on two date-times is null", &format!("{} < {}", a.expr(), b.expr()), &ilt_op, want_lt);
+      }
+      let want_le = if sc == "lt" || sc == "eq" { "true" } else { "false" };
+      if ile != want_le && !beyond && icmp != "panic" {
+        cx.rep.disagree(Kind::ImplVsSpec, "datetime_compare_instant", "C15 between on date-times differs from the order of instants", &e, &ile, want_le);
+      }
+    }
+    if cx.rep.samples.len() < 8 && icmp != "none" {
+      cx.rep.sample(json!({"expression": e, "implementation": obs, "cmp model/spec": ans_c, "sub model/spec": ans_s}));
+    }
+  }
+}
+
+/// Local times that do not exist or exist twice in a named zone (outside the property's
+/// quantifier, but the offset lookup panics instead of answering null: finding F6).
+fn run_zone_gaps(cx: &mut Ctx) {
+  let cases = [
+    ("2021-03-28T02:30:00@Europe/Warsaw", "nonexistent"),
+    ("2021-10-31T02:30:00@Europe/Warsaw", "ambiguous"),
+    ("2021-03-14T02:30:00@America/New_York", "nonexistent"),
+    ("2021-11-07T01:30:00@America/New_York", "ambiguous"),
+  ];
+  for (t, kind) in cases {
+    let e = format!("date and time(\"{}\") = date and time(\"{}\")", t, t);
+    let o = norm_panic(&feel(&e));
+    cx.rep.case(&e, true);
+    cx.rep.hit(&format!("zone-gap:{}", kind));
+    if o == "panic" {
+      cx.rep.disagree(Kind::ImplVsSpec, "datetime_compare_instant", "C15 named zone: a nonexistent or ambiguous local time panics in get_zone_offset", &e, "panic", "null or a boolean");
+    }
+  }
+}
+
+fn run_props(cx: &mut Ctx, dts: &[Dt], table_offset: &[Option<i64>]) {
+  let mut live: Vec<(&Dt, String, Option<i64>)> = vec![];
+  for (x, t) in dts.iter().zip(table_offset.iter()) {
+    if constructed_ok(cx, x) {
+      live.push((x, oracle_of(x), *t));
+    }
+  }
+  let reqs: Vec<String> = live.iter().map(|(x, o, _)| format!("(c15 prop ({}) {})", x.fields(), o)).collect();
+  let answers = cx.model.ask_batch(&reqs);
+  for (((x, o, t), req), ans) in live.iter().zip(reqs.iter()).zip(answers.iter()) {
+    let e = format!("{{a: {}, r: [a.year, a.month, a.day, a.hour, a.minute, a.second, a.time offset, a.timezone]}}.r", x.expr());
+    let obs = feel_list(&e);
+    cx.rep.case(req, true);
+    cx.rep.hit("prop");
+    let render = |s: &str| -> String {
+      if s.starts_with("(n ") {
+        s[3..s.len() - 1].to_string()
+      } else if s.starts_with("(dtd ") {
+        let n: i128 = s[5..s.len() - 1].parse().unwrap_or(0);
+        format!("{}", n / 1_000_000_000)
+      } else if s == "null" {
+        "none".to_string()
+      } else {
+        s.to_string()
+      }
+    };
+    let got = format!("({})", obs.iter().map(|s| render(s)).collect::<Vec<_>>().join(" "));
+    if &got != ans {
+      cx.rep.disagree(Kind::ImplVsModel, "property_access", "date-time property access differs from the model", &e, &got, ans);
+    }
+    // against the written components (the property), and the zone offset against zoneinfo
+    let want_off = match &x.z {
+      Zone::Utc => "0".to_string(),
+      Zone::Local => "none".to_string(),
+      Zone::Offset(n) => n.to_string(),
+      Zone::Named(_) => t.map(|v| v.to_string()).unwrap_or_else(|| o.clone()),
+    };
+    let want_tz = match &x.z {
+      Zone::Named(n) => Sexp::str(n).to_string(),
+      _ => "none".to_string(),
+    };
+    let want = format!("({} {} {} {} {} {} {} {})", x.y, x.m, x.d, x.h, x.mi, x.s, want_off, want_tz);
+    if got != want {
+      let sig = if let (Zone::Named(_), Some(_)) = (&x.z, t) {
+        if o != &want_off { "C15 named-zone offset differs from zoneinfo" } else { "C15 date-time properties differ from the components" }
+      } else {
+        "C15 date-time properties differ from the components"
+      };
+      cx.rep.disagree(Kind::ImplVsSpec, "property_access", sig, &e, &got, &want);
+    }
+  }
+}
+
+// ---------------------------------------------------------------------------------------------
+// family 5: whole months between two dates
+
+fn run_ym(cx: &mut Ctx, pairs: &[((i64, i64, i64), (i64, i64, i64))]) {
+  let reqs: Vec<String> = pairs.iter().map(|(a, b)| format!("(c15 ym {} {} {} {} {} {})", a.0, a.1, a.2, b.0, b.1, b.2)).collect();
+  let answers = cx.model.ask_batch(&reqs);
+  for (((a, b), req), ans) in pairs.iter().zip(reqs.iter()).zip(answers.iter()) {
+    let e = format!("years and months duration({}, {})", date_expr(a.0, a.1, a.2), date_expr(b.0, b.1, b.2));
+    let obs = norm_panic(&feel(&e));
+    cx.rep.case(req, a != b);
+    cx.rep.hit(if a.0 == b.0 { "ym:same-year" } else { "ym:different-years" });
+    let got = if obs.starts_with("(ymd ") { obs[5..obs.len() - 1].to_string() } else { obs.clone() };
+    let (mo, sp) = match parse_pair(ans) {
+      Some(p) => (p.0.to_string(), p.1.to_string()),
+      None => {
+        cx.rep.disagree(Kind::ImplVsModel, "ym", "driver-error", req, &obs, ans);
+        continue;
+      }
+    };
+    if got != mo {
+      cx.rep.disagree(Kind::ImplVsModel, "ym_whole_months", "years and months duration differs from the model", &e, &got, &mo);
+    }
+    if got != sp {
+      let sig = if a.0 == b.0 && b < a {
+        "C15 years and months duration: same year, `to` before `from`"
+      } else {
+        "C15 years and months duration is not the number of whole months"
+      };
+      cx.rep.disagree(Kind::ImplVsSpec, "ym_whole_months", sig, &e, &got, &sp);
+    }
+    if cx.rep.samples.len() < 10 && a.0 != b.0 {
+      cx.rep.sample(json!({"expression": e, "implementation": obs, "model_and_spec": ans}));
+    }
+  }
+}
+
+// ---------------------------------------------------------------------------------------------
+// family 6: durations: components and arithmetic
+
+fn dtd_text(n: i128) -> String {
+  let a = n.abs();
+  let (secs, ns) = (a / 1_000_000_000, a % 1_000_000_000);
+  let frac = if ns > 0 { format!(".{}", format!("{:09}", ns).trim_end_matches('0')) } else { String::new() };
+  format!("duration(\"{}PT{}{}S\")", if n < 0 { "-" } else { "" }, secs, frac)
+}
+
+fn ymd_text(n: i64) -> String {
+  format!("duration(\"{}P{}M\")", if n < 0 { "-" } else { "" }, n.abs())
+}
+
+fn dtd_ok(cx: &mut Ctx, n: i128) -> bool {
+  if feel(&dtd_text(n)) == format!("(dtd {})", n) {
+    true
+  } else {
+    cx.rep.hit("skipped:construction-differs");
+    if std::env::var("VERIF_DEBUG").is_ok() {
+      eprintln!("construction differs: {} => {} (wanted {})", dtd_text(n), feel(&dtd_text(n)), n);
+    }
+    false
+  }
+}
+
+fn num_of(s: &str) -> String {
+  if s.starts_with("(n ") {
+    s[3..s.len() - 1].to_string()
+  } else if s.starts_with("(dtd ") {
+    s[5..s.len() - 1].to_string()
+  } else if s.starts_with("(ymd ") {
+    s[5..s.len() - 1].to_string()
+  } else if s == "null" {
+    "none".to_string()
+  } else {
+    s.to_string()
+  }
+}
+
+fn run_durations(cx: &mut Ctx, dtds: &[i128], ymds: &[i64], dtd_pairs: &[(i128, i128)], ymd_pairs: &[(i64, i64)]) {
+  // components
+  let dtds: Vec<i128> = dtds.iter().cloned().filter(|n| dtd_ok(cx, *n)).collect();
+  let reqs: Vec<String> = dtds.iter().map(|n| format!("(c15 dtd {})", n)).collect();
+  let answers = cx.model.ask_batch(&reqs);
+  for ((n, req), ans) in dtds.iter().zip(reqs.iter()).zip(answers.iter()) {
+    let e = format!("{{a: {}, r: [a.days, a.hours, a.minutes, a.seconds]}}.r", dtd_text(*n));
+    let obs = feel_list(&e);
+    cx.rep.case(req, *n != 0);
+    cx.rep.hit(if *n < 0 { "dtd:negative" } else { "dtd:non-negative" });
+    let got = format!("({})", obs.iter().map(|s| num_of(s)).collect::<Vec<_>>().join(" "));
+    let (mo, _sp) = match parse_pair(ans) {
+      Some(p) => (p.0.to_string(), p.1.to_string()),
+      None => {
+        cx.rep.disagree(Kind::ImplVsModel, "dtd", "driver-error", req, &got, ans);
+        continue;
+      }
+    };
+    if got != mo {
+      cx.rep.disagree(Kind::ImplVsModel, "dur_components_sum", "duration components differ from the model", &e, &got, &mo);
+    }
+    // the law, on the implementation's own answers: in range, and they add up to |n| (whole seconds)
+    let v: Vec<i128> = obs.iter().map(|s| num_of(s).parse::<i128>().unwrap_or(-1)).collect();
+    let ok = v.len() == 4
+      && v[1] >= 0 && v[1] < 24 && v[2] >= 0 && v[2] < 60 && v[3] >= 0 && v[3] < 60 && v[0] >= 0
+      && ((v[0] * 24 + v[1]) * 60 + v[2]) * 60 + v[3] == n.abs() / 1_000_000_000;
+    if !ok {
+      cx.rep.disagree(Kind::ImplVsSpec, "dur_components_sum", "C15 days/hours/minutes/seconds do not add up to the duration", &e, &got, &format!("|{}| ns", n));
+    }
+    if cx.rep.samples.len() < 11 && *n < 0 {
+      cx.rep.sample(json!({"expression": e, "implementation": obs, "model_and_spec": ans}));
+    }
+  }
+  let reqs: Vec<String> = ymds.iter().map(|n| format!("(c15 ymd {})", n)).collect();
+  let answers = cx.model.ask_batch(&reqs);
+  for ((n, req), ans) in ymds.iter().zip(reqs.iter()).zip(answers.iter()) {
+    let e = format!("{{a: {}, r: [a.years, a.months]}}.r", ymd_text(*n));
+    let obs = feel_list(&e);
+    cx.rep.case(req, *n != 0);
+    cx.rep.hit(if *n < 0 { "ymd:negative" } else { "ymd:non-negative" });
+    let got = format!("({})", obs.iter().map(|s| num_of(s)).collect::<Vec<_>>().join(" "));
+    let (mo, _sp) = match parse_pair(ans) {
+      Some(p) => (p.0.to_string(), p.1.to_string()),
+      None => {
+        cx.rep.disagree(Kind::ImplVsModel, "ymd", "driver-error", req, &got, ans);
+        continue;
+      }
+    };
+    if got != mo {
+      cx.rep.disagree(Kind::ImplVsModel, "dur_components_sum", "years/months components differ from the model", &e, &got, &mo);
+    }
+    let v: Vec<i128> = obs.iter().map(|s| num_of(s).parse::<i128>().unwrap_or(i128::MAX)).collect();
+    let ok = v.len() == 2 && v[0] * 12 + v[1] == *n as i128 && v[1].abs() < 12 && (v[1] == 0 || (v[1] < 0) == (*n < 0));
+    if !ok {
+      cx.rep.disagree(Kind::ImplVsSpec, "dur_components_sum", "C15 years/months do not add up to the duration", &e, &got, &n.to_string());
+    }
+  }
+  // arithmetic and comparison
+  let dtd_pairs: Vec<(i128, i128)> = dtd_pairs.iter().cloned().filter(|(a, b)| dtd_ok(cx, *a) && dtd_ok(cx, *b)).collect();
+  let mut all: Vec<(&str, i128, i128, String, String)> = vec![];
+  for (a, b) in &dtd_pairs {
+    all.push(("dtd", *a, *b, dtd_text(*a), dtd_text(*b)));
+  }
+  for (a, b) in ymd_pairs {
+    all.push(("ymd", *a as i128, *b as i128, ymd_text(*a), ymd_text(*b)));
+  }
+  let reqs: Vec<String> = all.iter().map(|(k, a, b, _, _)| format!("(c15 durops {} {} {})", k, a, b)).collect();
+  let answers = cx.model.ask_batch(&reqs);
+  for (((k, a, b, ta, tb), req), ans) in all.iter().zip(reqs.iter()).zip(answers.iter()) {
+    let e = format!("{{a: {}, b: {}, r: [a + b, -a, a - b, a = b, a in (< b), a < b]}}.r", ta, tb);
+    let obs = feel_list(&e);
+    cx.rep.case(req, a != b);
+    cx.rep.hit(&format!("durops:{}", k));
+    if obs.len() != 6 {
+      cx.rep.disagree(Kind::ImplVsModel, "durops", "duration arithmetic: unexpected outcome", &e, &obs.join(" "), ans);
+      continue;
+    }
+    let got = format!("({})", obs[..5].iter().map(|s| num_of(s)).collect::<Vec<_>>().join(" "));
+    let (mo, sp) = match parse_pair(ans) {
+      Some(p) => (p.0.to_string(), p.1),
+      None => {
+        cx.rep.disagree(Kind::ImplVsModel, "durops", "driver-error", req, &got, ans);
+        continue;
+      }
+    };
+    if got != mo {
+      cx.rep.disagree(Kind::ImplVsModel, "dur_add_neg_cmp", "duration arithmetic differs from the model", &e, &got, &mo);
+    }
+    let spl: Vec<String> = sp.as_list().map(|l| l.iter().map(|x| x.to_string()).collect()).unwrap_or_default();
+    let names = ["a + b", "-a", "a - b", "a = b", "a in (< b)"];
+    for i in 0..5 {
+      let g = num_of(&obs[i]);
+      if spl.get(i) != Some(&g) {
+        let sig = format!(
+          "C15 {}: `{}` {}",
+          if *k == "dtd" { "days-and-time durations" } else { "years-and-months durations" },
+          names[i],
+          if g == "none" { "is null" } else { "differs from the arithmetic on total lengths" }
+        );
+        cx.rep.disagree(Kind::ImplVsSpec, "dur_add_neg_cmp", &sig, &e, &g, spl.get(i).map(|s| s.as_str()).unwrap_or(""));
+      }
+    }
+    let want_lt = if a < b { "true" } else { "false" };
+    if obs[5] != want_lt {
+      cx.rep.disagree(Kind::ImplVsSpec, "dur_add_neg_cmp", "C15 operator < on two durations is null", &format!("{} < {}", ta, tb), &obs[5], want_lt);
+    }
+  }
+}
+
+// ---------------------------------------------------------------------------------------------
+
+fn random_valid_date(rng: &mut Rng, lo: i64, hi: i64) -> (i64, i64, i64) {
+  let y = rng.range(lo, hi);
+  let m = rng.range(1, 12);
+  let d = rng.range(1, dim(y, m));
+  (y, m, d)
+}
+
+fn random_offset(rng: &mut Rng) -> Zone {
+  match rng.below(6) {
+    0 => Zone::Utc,
+    1 => Zone::Offset(60 * rng.range(-899, 899)).clone(),
+    2 => Zone::Offset(rng.range(-53_999, 53_999)),
+    3 => Zone::Offset(3600 * rng.range(-14, 14)),
+    4 => Zone::Offset(-60 * rng.range(1, 59)),
+    _ => Zone::Offset(900 * rng.range(-56, 56)),
+  }
+}
+
+fn fix_zero(z: Zone) -> Zone {
+  // an offset of zero is stored as UTC by the code (FeelZone::new)
+  if z == Zone::Offset(0) {
+    Zone::Utc
+  } else {
+    z
+  }
+}
+
+fn random_dt(rng: &mut Rng, lo: i64, hi: i64) -> Dt {
+  let (y, m, d) = random_valid_date(rng, lo, hi);
+  // fractions of at most three digits survive the code's f64 conversion (longer ones are C14's
+  // concern; a few are kept and skipped when the constructed value is not the intended one)
+  let ns = match rng.below(8) {
+    0 | 1 | 2 => 0,
+    3 | 4 => rng.range(1, 999) * 1_000_000,
+    5 | 6 => rng.range(1, 9) * 100_000_000,
+    _ => rng.range(0, 999_999_999),
+  };
+  Dt { y, m, d, h: rng.range(0, 23), mi: rng.range(0, 59), s: rng.range(0, 59), ns, z: fix_zero(random_offset(rng)) }
+}
+
+pub fn run(cfg: &Cfg) -> Report {
+  match crate::util::guarded(|| run_inner(cfg)) {
+    Ok(r) => r,
+    Err(m) => {
+      eprintln!("C15 harness failed: {}", m);
+      std::process::exit(3);
+    }
+  }
+}
+
+fn run_inner(cfg: &Cfg) -> Report {
+  let mut rep = Report::new(
+    "C15",
+    "dates (validity, weekday, properties) from date(y,m,d) with month ends, leap days, day 0 and last+1 of years -1..2400 (every day in the thorough tier) and sampled years to ±999999999; date(y,m,d) with fractional, wrapping and out-of-range numbers; pairs of dates (order, whole months); pairs of date-times with offsets and named zones (comparison, subtraction, properties); durations (components, +, -, =, <). Non-trivial: month-end/first/zero days for single dates, distinct operands for pairs; distinct by request line.",
+  );
+  if crate::c14::probe_if_requested() {
+    return rep;
+  }
+  crate::c14::note_replay(cfg, &mut rep);
+  let thorough = cfg.tier == "thorough";
+  let mut rng = Rng::new(cfg.seed);
+  let mut model = Model::start(&cfg.driver);
+  let mut cx = Ctx { rep: &mut rep, model: &mut model };
+
+  // ---- dates
+  let mut dates: Vec<(i64, i64, i64)> = vec![];
+  if thorough {
+    for y in -1..=2400 {
+      for m in 1..=12 {
+        for d in 0..=(dim(y, m) + 1) {
+          dates.push((y, m, d));
+        }
+        if dim(y, m) < 30 {
+          dates.push((y, m, 31));
+        }
+      }
+      dates.push((y, 0, 1));
+      dates.push((y, 13, 1));
+    }
+  } else {
+    for y in -1..=2400i64 {
+      // the end of February and the turn of the year, every year
+      for d in [28, 29, 30] {
+        dates.push((y, 2, d));
+      }
+      dates.push((y, 12, 31));
+      dates.push((y, 1, 1));
+      // every month end (and day 0, last+1) around century and leap boundaries
+      let r = y.rem_euclid(100);
+      if r <= 1 || r >= 99 || y.rem_euclid(400) == 4 || y <= 1 {
+        for m in 1..=12 {
+          for d in [0, 1, dim(y, m), dim(y, m) + 1] {
+            dates.push((y, m, d));
+          }
+        }
+        dates.push((y, 0, 1));
+        dates.push((y, 13, 1));
+      }
+    }
+    for _ in 0..3000 {
+      dates.push(random_valid_date(&mut rng, -1, 2400));
+    }
+  }
+  // beyond: chrono's limits and the library's own limits
+  for y in [-999_999_999i64, -262_145, -262_144, -262_143, -262_142, -10_000, -1000, -1, 0, 1, 999, 1000, 9999, 10_000, 262_141, 262_142, 262_143, 262_144, 999_999_999] {
+    for (m, d) in [(1, 1), (2, 28), (2, 29), (2, 30), (12, 31), (6, 0), (4, 31)] {
+      dates.push((y, m, d));
+    }
+  }
+  // leap and non-leap (century) years beyond chrono: only the library's own leap rule decides
+  for y in [300_100i64, 300_004, 300_000, 400_000, 999_999_600, 999_999_900, 999_999_996, 999_999_998, -300_100, -300_004, -400_000, -999_999_600, -999_999_900, -999_999_996] {
+    for (m, d) in [(2, 28), (2, 29), (2, 30), (3, 1), (12, 31), (11, 31)] {
+      dates.push((y, m, d));
+    }
+  }
+  for _ in 0..(if thorough { 20_000 } else { 2000 }) {
+    let span = *rng.pick(&[3000i64, 262_200, 999_999_999]);
+    dates.push(random_valid_date(&mut rng, -span, span));
+    // the end of February of a random year, valid or not
+    let y = rng.range(-span, span);
+    dates.push((y, 2, rng.range(28, 30)));
+  }
+  cx.rep.extra.insert("dates_checked".into(), json!(dates.len()));
+  run_dates(&mut cx, &dates);
+
+  // ---- date(y, m, d) from numbers
+  run_fromnum(&mut cx, &mut rng, if thorough { 20_000 } else { 3000 });
+
+  // ---- order and whole months on pairs
+  let mut pairs: Vec<((i64, i64, i64), (i64, i64, i64))> = vec![];
+  pairs.push(((999_999, 1, 1), (999_999, 1, 2)));
+  pairs.push(((2021, 3, 10), (2021, 1, 15)));
+  pairs.push(((2021, 3, 15), (2021, 1, 10)));
+  pairs.push(((2021, 3, 15), (2021, 3, 10)));
+  pairs.push(((2021, 1, 15), (2021, 3, 10)));
+  pairs.push(((2020, 3, 15), (2021, 3, 10)));
+  pairs.push(((2021, 3, 10), (2020, 3, 15)));
+  pairs.push(((2011, 12, 22), (2013, 8, 24)));
+  pairs.push(((2013, 8, 24), (2011, 12, 22)));
+  for _ in 0..(if thorough { 40_000 } else { 5000 }) {
+    let span = *rng.pick(&[2i64, 50, 3000, 262_200, 999_999_999]);
+    let a = random_valid_date(&mut rng, -span.min(999_999_999), span);
+    let b = match rng.below(5) {
+      0 => a,
+      1 => {
+        let m = rng.range(1, 12);
+        (a.0, m, rng.range(1, dim(a.0, m)))
+      }
+      2 => {
+        let y = a.0 + rng.range(-1, 1);
+        let m = rng.range(1, 12);
+        (y, m, rng.range(1, dim(y, m)))
+      }
+      3 => (a.0, a.1, rng.range(1, dim(a.0, a.1))),
+      _ => random_valid_date(&mut rng, -span, span),
+    };
+    if b.0.abs() <= 999_999_999 {
+      pairs.push((a, b));
+    }
+  }
+  run_dcmp(&mut cx, &pairs);
+  run_ym(&mut cx, &pairs);
+
+  // ---- date-times
+  let mut dtp: Vec<(Dt, Dt)> = vec![];
+  let mk = |y, m, d, h, mi, s, ns, z| Dt { y, m, d, h, mi, s, ns, z };
+  dtp.push((mk(2021, 1, 1, 0, 0, 0, 0, Zone::Utc), mk(2020, 1, 1, 0, 0, 0, 0, Zone::Offset(3600))));
+  dtp.push((mk(2021, 1, 1, 1, 0, 0, 0, Zone::Offset(3600)), mk(2021, 1, 1, 0, 0, 0, 0, Zone::Utc)));
+  dtp.push((mk(2300, 1, 1, 0, 0, 0, 0, Zone::Utc), mk(2000, 1, 1, 0, 0, 0, 0, Zone::Utc)));
+  dtp.push((mk(999_999, 1, 1, 0, 0, 0, 0, Zone::Utc), mk(999_999, 1, 2, 0, 0, 0, 0, Zone::Utc)));
+  dtp.push((mk(262_142, 12, 31, 23, 30, 0, 0, Zone::Offset(-3600)), mk(262_142, 12, 31, 23, 30, 0, 0, Zone::Utc)));
+  dtp.push((mk(-262_143, 1, 1, 0, 30, 0, 0, Zone::Offset(3600)), mk(-262_143, 1, 1, 0, 30, 0, 0, Zone::Utc)));
+  dtp.push((mk(2021, 6, 1, 12, 0, 0, 0, Zone::Named("Europe/Warsaw".into())), mk(2021, 6, 1, 10, 0, 0, 0, Zone::Utc)));
+  dtp.push((mk(2021, 1, 1, 0, 0, 0, 0, Zone::Offset(-1800)), mk(2021, 1, 1, 0, 30, 0, 0, Zone::Utc)));
+  let n_dt = if thorough { 30_000 } else { 4000 };
+  for _ in 0..n_dt {
+    let span = *rng.pick(&[1i64, 100, 300, 3000, 262_143]);
+    let base = rng.range(-1, 2400);
+    let lo = (base - span).max(-262_150);
+    let hi = (base + span).min(262_150);
+    let a = random_dt(&mut rng, lo, hi);
+    let b = match rng.below(4) {
+      0 => {
+        // the same instant written with another offset, or nearly
+        let mut b = random_dt(&mut rng, a.y, a.y);
+        b.m = a.m;
+        b.d = a.d;
+        b.h = a.h;
+        b.mi = a.mi;
+        b.s = a.s;
+        b.ns = a.ns;
+        b
+      }
+      1 => {
+        let mut b = a.clone();
+        b.z = fix_zero(random_offset(&mut rng));
+        b.s = rng.range(0, 59);
+        b
+      }
+      _ => random_dt(&mut rng, lo, hi),
+    };
+    dtp.push((a, b));
+  }
+  // named zones (offsets from the independent table)
+  for _ in 0..(if thorough { 3000 } else { 400 }) {
+    let r = rng.pick(&ZONE_TABLE).clone();
+    let a = mk(r.1 as i64, r.2 as i64, r.3 as i64, r.4 as i64, r.5 as i64, r.6 as i64, 0, Zone::Named(r.0.to_string()));
+    let b = if rng.chance(1, 2) {
+      let q = rng.pick(&ZONE_TABLE).clone();
+      mk(q.1 as i64, q.2 as i64, q.3 as i64, q.4 as i64, q.5 as i64, q.6 as i64, 0, Zone::Named(q.0.to_string()))
+    } else {
+      // the same instant in UTC, according to the table
+      let secs = (a.h * 3600 + a.mi * 60 + a.s) - r.7 as i64;
+      if secs < 0 || secs >= 86_400 {
+        random_dt(&mut rng, a.y, a.y)
+      } else {
+        mk(a.y, a.m, a.d, secs / 3600, secs % 3600 / 60, secs % 60, 0, Zone::Utc)
+      }
+    };
+    dtp.push((a, b));
+  }
+  run_dt_pairs(&mut cx, &dtp);
+  run_zone_gaps(&mut cx);
+
+  // properties: every table row (zone offset against zoneinfo) and random date-times
+  let mut pd: Vec<Dt> = vec![];
+  let mut pt: Vec<Option<i64>> = vec![];
+  for r in ZONE_TABLE.iter() {
+    pd.push(mk(r.1 as i64, r.2 as i64, r.3 as i64, r.4 as i64, r.5 as i64, r.6 as i64, 0, Zone::Named(r.0.to_string())));
+    pt.push(Some(r.7 as i64));
+  }
+  for _ in 0..(if thorough { 5000 } else { 1000 }) {
+    let mut x = random_dt(&mut rng, -3000, 3000);
+    if rng.chance(1, 8) {
+      x.z = Zone::Local;
+    }
+    pd.push(x);
+    pt.push(None);
+  }
+  run_props(&mut cx, &pd, &pt);
+
+  // ---- durations
+  let mut dtds: Vec<i128> = vec![0, 1, -1, 86_400_000_000_000, -93_600_000_000_000, 129_600_000_000_000, 999_999_999, 59_999_999_999, 18_446_744_073_709_551_615i128 * 1_000_000_000];
+  let mut ymds: Vec<i64> = vec![0, 1, -1, 11, 12, 13, -11, -12, -13, 14, -14, 999_999_999 * 12, -999_999_999 * 12];
+  let mut dtd_pairs: Vec<(i128, i128)> = vec![(86_400_000_000_000, 3_600_000_000_000), (0, 0), (1_000_000_000, -1_000_000_000)];
+  let mut ymd_pairs: Vec<(i64, i64)> = vec![(12, 1), (0, 0), (-14, 14)];
+  let rd = |rng: &mut Rng| -> i128 {
+    let mag: i128 = match rng.below(6) {
+      0 => rng.range(0, 120) as i128,
+      1 => rng.range(0, 200_000) as i128,
+      2 => rng.range(0, 40_000_000_000) as i128,
+      3 => rng.range(0, i64::MAX - 1) as i128,
+      4 => (rng.range(0, 1000) as i128) * 86_400 + (rng.range(0, 3) as i128) * 3600,
+      _ => (rng.range(0, i64::MAX - 1) as i128) * 2,
+    };
+    let ns: i128 = match rng.below(6) {
+      0 | 1 => 0,
+      2 | 3 | 4 => (rng.range(0, 999) as i128) * 1_000_000,
+      _ => rng.range(0, 999_999_999) as i128,
+    };
+    let v = mag * 1_000_000_000 + ns;
+    if rng.chance(1, 2) {
+      -v
+    } else {
+      v
+    }
+  };
+  let n_dur = if thorough { 20_000 } else { 3000 };
+  for _ in 0..n_dur {
+    dtds.push(rd(&mut rng));
+    let m = match rng.below(3) {
+      0 => rng.range(-40, 40),
+      1 => rng.range(-100_000, 100_000),
+      _ => rng.range(-11_999_999_988, 11_999_999_988),
+    };
+    ymds.push(m);
+    let a = rd(&mut rng);
+    let b = if rng.chance(1, 5) { a } else { rd(&mut rng) };
+    dtd_pairs.push((a, b));
+    let c = rng.range(-100_000, 100_000);
+    let d = if rng.chance(1, 5) { c } else { rng.range(-100_000, 100_000) };
+    ymd_pairs.push((c, d));
+  }
+  run_durations(&mut cx, &dtds, &ymds, &dtd_pairs, &ymd_pairs);
+
+  drop(cx);
+  rep.exhaustive = thorough;
+  rep.model_requests = model.requests;
+  rep
 }
